@@ -119,7 +119,8 @@ def generate(tier, out_rs, out_meta):
         # (multi-range GET: the body is the MultipartStream state machine, verified poll by poll in
         # mp_step; the instance here checks the headers and the initial state serve() hands over.
         # An If-Range that does not match turns a multi-range request into a complete 200: body.)
-        split = c0["method"] == "GET" and (c0["group"] in ("full", "single") or (c0["group"] == "multi" and c0["ir"] == "other"))
+        # (single-range 206: no split, the body is checked before the first poll only)
+        split = c0["method"] == "GET" and (c0["group"] == "full" or (c0["group"] == "multi" and c0["ir"] == "other"))
         for focus, suffix in ([(1, "_hd"), (2, "_bd")] if split else [(0, "")]):
             variants = [("", [255] * 6, None)]
             # (constant numbers for multi-range instances -- num_variants() -- were tried and did not
